@@ -26,6 +26,7 @@ CONSTANTS Clients,      \* client connection ids (positive integers)
           MaxWorkers,   \* pool sizes 1..MaxWorkers
           Runtimes,     \* subset of {"threaded", "tokio"}
           MaxReq,       \* requests a client may start on one connection
+          Kinds,        \* kinds of request: subset of {"close", "keep", "ws"}
           Dev           \* subset of DevNames
 
 WAKE == 0                \* the wake-up connection made by the run thread
@@ -43,7 +44,7 @@ DevNames == { "NoWake",             \* no wake-up connection (e.g. connect to th
               "FlagBeforeRecv",     \* flag initialised true / set before the signal is received             -> Inv_ServingBefore
               "AbortOnStop",        \* stop() kills the connections being handled                             -> Inv_NoTruncation
               "StopDropsQueue" }    \* stop() discards jobs that were dispatched but not started              -> Inv_DispatchedKept
-ASSUME Dev \subseteq DevNames
+ASSUME Dev \subseteq DevNames /\ Kinds \subseteq {"close", "keep", "ws"}
 
 VARIABLES rt, nw,
           apc, cur,                       \* acceptor: program counter, connection in hand
@@ -307,7 +308,7 @@ RunThread == Sig_Recv \/ Flag_Set \/ Wake_Connect \/ Join_Return
 Pool == Worker_Take \/ Worker_Disc
 Handler == \E c \in Conns : H_Read(c) \/ H_Finish(c) \/ H_Write(c) \/ H_Eof(c)
 Client == \E c \in Clients : \/ Cli_Connect(c) \/ Cli_SendHalf(c) \/ Cli_Close(c)
-                             \/ \E k \in {"close", "keep", "ws"} : Cli_SendRest(c, k)
+                             \/ \E k \in Kinds : Cli_SendRest(c, k)
 
 Next == Sig_Send \/ Acceptor \/ RunThread \/ Pool \/ Handler \/ Client
 
@@ -321,7 +322,7 @@ Spec == Init /\ [][Next]_vars /\ WF_vars(Acceptor) /\ WF_vars(RunThread)
 SpecAllFair == Init /\ [][Next]_vars /\ WF_vars(Acceptor) /\ WF_vars(RunThread) /\ WF_vars(Pool)
                \* the handler actions of one connection are mutually exclusive: one WF per connection
                /\ (\A c \in Conns : WF_vars(H_Read(c) \/ H_Finish(c) \/ H_Write(c) \/ H_Eof(c)))
-               /\ (\A d \in Clients : WF_vars(Cli_Close(d) \/ \E k \in {"close", "keep", "ws"} : Cli_SendRest(d, k)))
+               /\ (\A d \in Clients : WF_vars(Cli_Close(d) \/ \E k \in Kinds : Cli_SendRest(d, k)))
 
 \* guard of the fair processes: used by the trace spec to decide that a recorded quiescent state is a
 \* legitimate one (the real accept loop / run thread stopped where the model says it may stop)
